@@ -524,7 +524,7 @@ pub fn lasso_pairs(thorough: bool) -> Vec<(usize, usize)> {
 
 /// Gold E walks the perimeter of a 2 x ka rectangle on ranks 2/1, Silver e that of a 2 x kb rectangle on ranks 8/7
 /// (one step and a pass per turn); rabbits parked on h4 / h5.
-pub fn run_lasso(prop: &str, checks: u32, ka: usize, kb: usize, idx: u64) -> FamilyResult {
+pub fn run_lasso(prop: &str, checks: u32, ka: usize, kb: usize, rot: usize, idx: u64) -> FamilyResult {
     let t0 = Instant::now();
     let ga = ring(6, ka);
     let sb = ring(0, kb);
@@ -542,23 +542,26 @@ pub fn run_lasso(prop: &str, checks: u32, ka: usize, kb: usize, idx: u64) -> Fam
         la / g * lb
     };
     let mut board = [rm::EMPTY; 64];
-    board[ga[0]] = rm::cell(true, 5);
-    board[sb[0]] = rm::cell(false, 5);
+    // rotation: the root is the position reached after `rot` turns of the walk (so that EVERY position of the cycle
+    // is, in some lasso, the one whose third occurrence is attempted)
+    let (gi0, si0) = ((rot + 1) / 2, rot / 2);
+    board[ga[gi0 % la]] = rm::cell(true, 5);
+    board[sb[si0 % lb]] = rm::cell(false, 5);
     board[sq("h4")] = rm::cell(true, 0);
     board[sq("h5")] = rm::cell(false, 0);
-    let family = format!("E8 lasso: Gold E round a {}-square ring (a2..), Silver e round a {}-square ring (a8..), one step + pass per turn; cycle of {} turn-start positions walked twice, third entry attempted", la, lb, 2 * lcm);
-    let root = RootInfo { how: if idx % 2 == 1 { RootHow::Parsed } else { RootHow::Constructed }, explorer: "E8", family: family.clone(), idx, board, gold: true, move_number: 2, config: serde_json::json!({"ring_gold": la, "ring_silver": lb}) };
+    let family = format!("E8 lassos: Gold E round a {}-square ring (a2..), Silver e round a {}-square ring (a8..), one step + pass per turn; cycle of {} turn-start positions walked twice from EVERY one of its positions as root, third entry attempted", la, lb, 2 * lcm);
+    let root = RootInfo { how: if idx % 2 == 1 { RootHow::Parsed } else { RootHow::Constructed }, explorer: "E8", family: family.clone(), idx, board, gold: rot % 2 == 0, move_number: 2, config: serde_json::json!({"ring_gold": la, "ring_silver": lb, "rotation": rot}) };
     let mut ctx = Ctx::new(checks, prop, &root);
     let mut complete = true;
     let mut note = String::new();
     let r = catch_unwind(AssertUnwindSafe(|| {
         let mut node = root_node(&root);
         turn_start_oracles(&mut ctx, &node, None);
-        let (mut gi, mut si) = (0usize, 0usize);
+        let (mut gi, mut si) = (gi0, si0);
         let total_turns = 4 * lcm; // the root position is occurrence 1; closing the second lap would be its third occurrence
         let mut third_lap_withheld = 0u64;
         for turn in 0..total_turns {
-            let gold = turn % 2 == 0;
+            let gold = (turn + rot) % 2 == 0;
             let (from, to) = if gold { (ga[gi % la], ga[(gi + 1) % la]) } else { (sb[si % lb], sb[(si + 1) % lb]) };
             let step = Action::Move(Square::from_index(from as u8), dir_between(from, to));
             // the step
@@ -612,5 +615,32 @@ pub fn run_lasso(prop: &str, checks: u32, ka: usize, kb: usize, idx: u64) -> Fam
 }
 
 pub fn run_lassos(prop: &str, checks: u32, thorough: bool) -> Vec<FamilyResult> {
-    lasso_pairs(thorough).par_iter().enumerate().map(|(i, &(a, b))| run_lasso(prop, checks, a, b, i as u64)).collect()
+    let mut out = vec![];
+    for (pi, &(a, b)) in lasso_pairs(thorough).iter().enumerate() {
+        let (la, lb) = (2 * a, 2 * b);
+        let g = {
+            let (mut x, mut y) = (la, lb);
+            while y != 0 {
+                let t = x % y;
+                x = y;
+                y = t;
+            }
+            x
+        };
+        let cycle = 2 * (la / g * lb);
+        let rs: Vec<FamilyResult> = (0..cycle).into_par_iter().map(|rot| run_lasso(prop, checks, a, b, rot, (pi * 1000 + rot) as u64)).collect();
+        // fold the rotations of one ring pair into one family row
+        let mut it = rs.into_iter();
+        let mut first = it.next().unwrap();
+        for r in it {
+            first.complete &= r.complete;
+            if !r.note.is_empty() {
+                first.note = r.note.clone();
+            }
+            first.wall_s += r.wall_s;
+            first.stats = std::mem::take(&mut first.stats).merge(r.stats);
+        }
+        out.push(first);
+    }
+    out
 }
